@@ -1155,6 +1155,34 @@ fn dependency_models(v: &mut Vec<Model>) {
                         }
                         if w.commit_step(&mut next_commit) {
                             progress = true;
+                            // "... or the committed prefix reaches the transaction": once
+                            // commit(k) has returned, k+1 - unless it is executed or a claim of
+                            // it is outstanding - must be on offer *now*, whatever blocked it
+                            // (its own barrier, a predecessor edge nobody has released yet, a
+                            // replaced blocker). The cursor is walked to the end; the other
+                            // claims it hands out are kept as outstanding claims and processed
+                            // by the worker afterwards, as a slow worker would.
+                            let t = next_commit;
+                            if t < n
+                                && w.txs[t].lock().unwrap().status != Ws::Executed
+                                && handoff != Some(t)
+                                && !handoffs.contains(&t)
+                            {
+                                let mut offered = false;
+                                while w.dep.index() < n {
+                                    if let Some(c) = w.dep.next() {
+                                        if c == t {
+                                            offered = true;
+                                        }
+                                        handoffs.push(c);
+                                    }
+                                }
+                                assert!(
+                                    offered,
+                                    "the committed prefix reached tx {t} (commit({}) returned) but tx {t} is not on offer",
+                                    t - 1
+                                );
+                            }
                         }
                         if progress {
                             idle_rounds = 0;
